@@ -287,6 +287,19 @@ func GenValue(t *rapid.T, typ int, n int) []byte {
 		if typ == TString {
 			s := rapid.OneOf(
 				rapid.SampledFrom(hostileStrings),
+				// printable text with exactly one awkward octet (an encoder that special-cases "plain" strings
+				// must classify every single octet correctly; a string full of awkward octets masks that)
+				rapid.Custom(func(t *rapid.T) string {
+					b := []byte("GigabitEthernet0/1 uplink to core, vlan 100; description text")
+					if n < len(b) {
+						b = b[:n]
+					}
+					if len(b) > 0 {
+						c := rapid.OneOf(rapid.ByteRange(0, 0x20), rapid.SampledFrom([]byte{0x7f, 0x80, 0xff, '"', '\\', '/', '<', '&'}), rapid.Byte()).Draw(t, "awkward")
+						b[rapid.IntRange(0, len(b)-1).Draw(t, "awkwardpos")] = c
+					}
+					return string(b)
+				}),
 				rapid.StringN(0, n, n),
 				rapid.Map(rapid.SliceOfN(rapid.Byte(), n, n), func(b []byte) string { return string(b) }),
 			).Draw(t, "str")
